@@ -1,4 +1,5 @@
 import Pendulum.Proofs.IsoReject
+import Pendulum.Proofs.ParserGen
 /-! # C07 — ISO 8601 / RFC 3339 date and time strings parse to the value they denote, both parser backends
 
 Property theorems only. `Iso.parseIso b` is the model of `parse_iso8601` of backend `b` (`Model/Iso.lean`:
@@ -236,5 +237,25 @@ example : parseIso .py "2021-03-04 12:34:56.5+01:00".toList = .ok (dateTimeV 202
 example : Rejected (parseIso .rust "2021-W01-0".toList) ∧ Rejected (parseIso .py "2021-W00".toList) := by
   unfold Rejected; decide
 example : rIsoformat 'T' true true 2021 3 4 5 6 7 0 0 = "2021-03-04T05:06:07Z".toList := by decide
+
+/-! ### the public wrapper as regenerated from the source (`Gen/Parser.lean`, tools/gen_parser.py) -/
+
+open Pendulum.ParserGen in
+/-- **public_wrapper_source_eq_model.** `_normalize` (parsing/__init__.py) followed by the type dispatch of `parser._parse`, as
+    written in the source and regenerated on every run — `exact`; a time completed from `now`; a date at midnight; an aware
+    datetime through `pendulum.instance(parsed)`, a naive one through `pendulum.datetime(<seven fields>, tz=options.get("tz",
+    UTC))`; `pendulum.date` / `pendulum.time` — is the model's `wrap` (the second half of `publicParse`), for the `tz` option
+    absent (`none`) or a fixed offset. Hypotheses: the stdlib and pendulum constructors are what the model says (`StdOk`,
+    `PendOk`; satisfiable: `Props.C17.front_end_hypotheses_satisfiable`), the value is a real date/time object (`WF`). -/
+theorem public_wrapper_source_eq_model (rk : IsoDur.Parsed → Bool) (b : Backend) (ext : Gen.Parser.Ext PV) (hstd : StdOk ext)
+    (hp : PendOk rk b ext) (text : List Char) (v : Value) (hv : WF v) (d o : Gen.Parser.Dict) (n : Option Gen.Parser.NowV)
+    (hn : d.now = some n)
+    (hnow : dateOk (nowOf (n.getD ext.datetime_now)).1 (nowOf (n.getD ext.datetime_now)).2.1 (nowOf (n.getD ext.datetime_now)).2.2)
+    (tz : Option Int) (htz : o.tz = tz.map Gen.Parser.TzVal.fixed) :
+    mapE PV.toOut (Gen.Parser.bindE (Gen.Parser.parsing_p_normalize ext (.obj (objOf v)) d) fun p =>
+        Gen.Parser.parser_p_parse_dispatch ext text p o) =
+      liftE ParseAll.outOfValue (wrap (Gen.Parser.py_truthy_optbool d.exact) tz (nowOf (n.getD ext.datetime_now)) v) := by
+  rw [wrap_eq rk b ext hstd hp text v hv d o n hn hnow, htz]
+  cases tz <;> rfl
 
 end Pendulum.Props.C07
